@@ -164,6 +164,10 @@ func takeCPUs(
 			})
 			cpusPerCore := acc.topology.CPUsPerCore()
 			for _, cpus := range freeCPUs {
+				if !acc.needs(cpusPerCore) {
+					// less than a whole core is still needed: leave the rest to the SpreadByPCPUs path below
+					break
+				}
 				for i := 0; i < len(cpus); i += cpusPerCore {
 					acc.take(cpus[i : i+cpusPerCore]...)
 					if acc.isSatisfied() {
